@@ -13,7 +13,9 @@
 (*   a, b           function parameters (values of the environment)        *)
 (*   G              a global that the environment declares or not          *)
 (*   objects        Obj(1) plain {}, Obj(2) valueOf -> 0, Obj(3) valueOf   *)
-(*                  -> "a"; a valueOf call is a trace event                *)
+(*                  -> "a"; a valueOf call is a trace event; Obj(4) has    *)
+(*                  an own toString -> "b" (a trace event) and the         *)
+(*                  inherited valueOf                                      *)
 (*                                                                         *)
 (* Transcribed from ECMA-262 (13.x expression evaluation, 14.x statement   *)
 (* completion records, 7.1.1 ToPrimitive, 7.3.x property access), not from *)
@@ -49,6 +51,10 @@ EIdx(b, k)   == Node("idx", "", 0, Undef, <<b, k>>)        \* b[k]
 EDel(t)      == Node("del", "", 0, Undef, <<t>>)           \* delete t
 EHCall(f, args) == Node("hcall", f, 0, Undef, args)        \* host function call: f(args) | console.log(args)
 EDef         == Node("gdef", "DEF", 0, Undef, <<>>)        \* the global DEF (the subject of a `define`; undeclared in the host)
+ETpl(h, e)   == Node("tpl", h, 0, Undef, <<e>>)            \* template literal `h${e}`, h = "" | "a"
+ESpread1(e)  == Node("sprd", "", 0, Undef, <<e>>)          \* ...[e] in argument position (one-element array literal spread)
+ECConst(nm, v) == Node("cconst", nm, 0, v, <<>>)           \* a constant binding nm = v that lives OUTSIDE the function: a const of
+                                                           \* another module / an enum member / a define key (13.1: evaluates to v)
 \* statements
 SExpr(e)     == Node("expr", "", 0, Undef, <<e>>)
 SRet(e)      == Node("ret", "", 0, Undef, <<e>>)
@@ -82,7 +88,8 @@ RecV   == Obj(RecId)
 ObjDef(id) == CASE id = 1 -> [kind |-> "plain", v |-> Undef]
                 [] id = 2 -> [kind |-> "valueOf", v |-> PZero]
                 [] id = 3 -> [kind |-> "valueOf", v |-> Str(<<97>>)]
-ObjIds == {1, 2, 3}
+                [] id = 4 -> [kind |-> "toString", v |-> Str(<<98>>)]   \* own toString (recorded), inherited valueOf
+ObjIds == {1, 2, 3, 4}
 KeyK   == CU("k")
 VarNames == {"a", "b", "x", "y", "i", "e", "DEF"}     \* DEF: a LOCAL that shadows the global DEF
 NProbes  == 9                                 \* pv has NProbes entries
@@ -117,7 +124,9 @@ ToPrimR(v, hint, st) ==
   IF v.t # "obj" THEN R("val", v, st)
   ELSE IF v.sg \notin ObjIds THEN R("unk", Unk, st)          \* the recorder object: outside the fragment
   ELSE LET d == ObjDef(v.sg)
-       IN IF d.kind = "valueOf" /\ hint # "string"
+       IN IF d.kind = "toString"      \* OrdinaryToPrimitive: toString first (hint string), or after the inherited valueOf returned the object
+          THEN R("val", d.v, Push(st, Event("toString", v.sg, <<>>, <<>>)))
+          ELSE IF d.kind = "valueOf" /\ hint # "string"
           THEN R("val", d.v, Push(st, Event("valueOf", v.sg, <<>>, <<>>)))
           ELSE R("val", Str(CU("[object Object]")), st)
 
@@ -160,7 +169,7 @@ PutRef(ref, v, st) ==
        THEN R("val", v, [Push(st, Event("set", 0, ref.key, <<v>>)) EXCEPT !.os = OsPut(@, ref.key, v)])
   ELSE R("unk", Unk, st)     \* assignment to a property of a primitive (strict/sloppy differ): not generated
 
-PropKeyOf(v) == IF v.t = "obj" THEN (IF v.sg \in ObjIds THEN Str(CU("[object Object]")) ELSE Unk)
+PropKeyOf(v) == IF v.t = "obj" THEN (IF v.sg \in {1, 2, 3} THEN Str(CU("[object Object]")) ELSE Unk)
                 ELSE ToStr(v)
 
 RECURSIVE Ev(_, _)
@@ -277,6 +286,16 @@ Ev(e, st) ==
                          IN IF r.c # "val" THEN r
                             ELSE LET x == BinR(BaseOp(e.op), old.v, r.v, r.st)
                                  IN IF x.c # "val" THEN x ELSE PutRef(rr.ref, x.v, x.st)
+    [] e.k = "tpl" ->                                      \* 13.2.8.6: ToString(value), hint string for objects
+         LET r == Ev(e.a[1], st)
+         IN IF r.c # "val" THEN r
+            ELSE LET p == ToPrimR(r.v, "string", r.st)
+                 IN IF p.c # "val" THEN p
+                    ELSE LET s == ToStr(p.v)
+                         IN IF s.t # "str" THEN R("unk", Unk, p.st)
+                            ELSE R("val", Str((IF e.op = "a" THEN <<97>> ELSE <<>>) \o s.s), p.st)
+    [] e.k = "sprd"   -> Ev(e.a[1], st)                    \* f(...[x]) passes x
+    [] e.k = "cconst" -> R("val", e.v, st)
     [] OTHER -> R("unk", Unk, st)
 
 (* ------------------------------------------------------------------ *)
@@ -402,7 +421,8 @@ ClassNames == {"not-over-comparison", "known-truthiness", "if-with-jump", "singl
                "unused-expression", "typeof-guard", "optional-chain-nullish", "constant-fold",
                "compound-assignment", "logical-assignment", "boolean-context", "if-to-conditional",
                "dead-code-after-jump", "switch", "try", "loop", "label", "delete", "comma",
-               "equality-with-literal", "nullish-compare", "double-negation", "property-access"}
+               "equality-with-literal", "nullish-compare", "double-negation", "property-access",
+               "template", "outer-constant", "assignment-as-operand"}
 
 Labels(prog) ==
   LET ns == SubP(prog)
@@ -451,6 +471,10 @@ Labels(prog) ==
           [] c = "double-negation" ->
                \E m \in ns : m.k = "un" /\ m.op = "!" /\ m.a[1].k = "un" /\ m.a[1].op = "!"
           [] c = "property-access" -> \E m \in ns : m.k \in {"mem", "idx", "optmem"}
+          [] c = "template" -> \E m \in ns : m.k = "tpl"
+          [] c = "outer-constant" -> \E m \in ns : m.k = "cconst"
+          [] c = "assignment-as-operand" ->
+               \E m \in ns : m.k \in {"un", "bin", "log", "cond", "tpl", "if", "switch", "while"} /\ m.a[1].k = "asg"
      }
 
 (* the classes the task statement names; each must be inhabited by the enumerated programs *)
